@@ -232,7 +232,183 @@ def gen(rng, tier):
         d = gen_data(rng, "nonfinite", rng.randint(0, 12))
         lines += unary_lines(rng, ["min", "max", "argmin", "argmax", "mean", "var"], "nonfinite", d)
         bump("nonfinite", 6)
+    lines += strata(rng.fork("strata"), tier, bump)
     return lines, cover
+
+
+# ------------------------------------------------------------------ generic strata (tools/GENERIC_STRATA.md)
+BOUNDARY_LENGTHS = [1, 2, 3, 4, 5, 6, 7, 8, 9, 15, 16, 17, 23, 24, 25, 31, 32, 33, 63, 64, 65, 127, 128, 129, 255, 256, 257,
+                    511, 512, 513, 1023, 1024, 1025, 1026, 2047, 2048, 2049, 2050, 4095, 4096, 4097, 8191, 8192, 8193, 10000]
+BLOCK_LENGTHS = [1023, 1024, 1025, 1026, 2047, 2048, 2049, 2050]
+
+
+def _nextafter(x, d):
+    return math.nextafter(x, d)
+
+
+def special_pool(rng):
+    """exact special values: integers, half-integers, 1/3, 2/3, powers of two and 1-ulp neighbours, 0, -0, +-1,
+    tiny and (moderately) huge magnitudes inside the stated data range."""
+    k = rng.randint(-30, 30)
+    p2 = 2.0 ** k
+    return [0.0, -0.0, 1.0, -1.0, 0.5, 1.5, -2.5, 2.0, 3.0, 1.0 / 3.0, 2.0 / 3.0, -1.0 / 3.0, p2, _nextafter(p2, 0.0),
+            _nextafter(p2, 4.0 * p2), -p2, 4503599627370496.0, 9007199254740992.0, 1e-300, -1e-300, 5e-324, 2.2250738585072014e-308,
+            1e100, -1e100, float(rng.randint(-1000, 1000)), rng.randint(-99, 99) + 0.5]
+
+
+def special_data(rng, n, frac=0.3, moderate=False):
+    pool = special_pool(rng)
+    if moderate:
+        pool = [v for v in pool if v == 0.0 or 1e-12 < abs(v) < 1e12]
+    s = 10.0 ** rng.randint(-2, 2)
+    return [rng.choice(pool) if rng.chance(frac) else rng.normal() * s for _ in range(n)]
+
+
+def centre_data(rng, n):
+    """data in which a datum equals the running mean exactly (the Welford delta is exactly 0 there)."""
+    kind = rng.randint(0, 5)
+    c = float(rng.randint(-20, 20)) if rng.chance(0.7) else rng.randint(-2000, 2000) / 8.0
+    if kind == 0:      # starts with 0 (the initial mean) / zeros inside
+        d = [0.0] + [float(rng.randint(-5, 5)) for _ in range(n - 1)]
+    elif kind == 1:    # symmetric pair then the centre, repeatedly
+        d = []
+        while len(d) < n:
+            w = float(rng.randint(1, 9))
+            d += [c - w, c + w, c]
+    elif kind == 2:    # integers with ties: the mean of the first k is an integer that follows
+        d = [c, c, c + 2.0, c, c + 1.0, c + 1.0]
+        while len(d) < n:
+            m = sum(d) / len(d)
+            d.append(m if m == math.floor(m) and rng.chance(0.7) else float(rng.randint(-9, 9)) + c)
+    elif kind == 3:    # constant, then one step, then the new mean
+        k = max(1, n // 2)
+        d = [c] * k + [c + (k + 1.0)] + [c + 1.0] * max(0, n - k - 1)
+    elif kind == 4:    # every datum after the first equals the running mean
+        d = [c] * n
+    else:              # leading signed zeros and revisits of 0
+        d = [rng.choice([0.0, -0.0]) for _ in range(min(n, 3))] + [rng.choice([0.0, 1.0, -1.0, -0.0]) for _ in range(max(0, n - 3))]
+    return d[:n]
+
+
+def strata(rng, tier, bump):
+    L = []
+    thorough = tier != "quick"
+    reps = 1 if not thorough else 6
+    # (1) data revisiting their running mean (round-3 seed C08f)
+    for _ in range(40 * reps):
+        n = rng.choice([1, 2, 3, 4, 5, 6, 7, 8, 9, 12, 16, 17, 33, rng.randint(1, 200)])
+        d = centre_data(rng, n)
+        L += unary_lines(rng, UNARY if rng.chance(0.4) else ["mean", "wmean", "var", "svar", "std", rng.choice(UNARY)], "centre", d)
+        if rng.chance(0.5):
+            L += cov_lines(rng, "centre", d, centre_data(rng, len(d)) if rng.chance(0.5) else [float(rng.randint(-9, 9)) for _ in d])
+        bump("strata:centre")
+    # (2) length boundaries: 2^k-1, 2^k, 2^k+1, multiples of 8; blocked / merged accumulation at 1024, 2048 (seed C08e)
+    for _ in range(reps):
+        for n in BOUNDARY_LENGTHS:
+            regime = rng.choice(["int", "gauss", "offset", "tied", "sorted"])
+            d = gen_data(rng, regime, n)
+            ops = ["mean", "wmean", "var", rng.choice(UNARY)] if not thorough else UNARY
+            if n in BLOCK_LENGTHS:
+                ops = ["mean", "wmean", "var", "svar", "std", "sstd", "argmin", "argmax", "min", "max"]
+            L += unary_lines(rng, ops, regime, d)
+            if n in BLOCK_LENGTHS or n <= 33 or thorough:
+                y = gen_data(rng, rng.choice(["gauss", "offset", regime]), n)
+                L += cov_lines(rng, regime, d, y)
+            bump("strata:length")
+        for n in BLOCK_LENGTHS:   # the extremum / the only outlier sits right at the block boundary
+            d = [1.0] * n
+            k = rng.choice([1022, 1023, 1024, 2046, 2047, 2048, n - 1])
+            k = min(k, n - 1)
+            d[k] = -3.0
+            L += unary_lines(rng, ["argmin", "min", "var", "wmean", "mean"], "tied", d)
+            d2 = [-v for v in d]
+            L += unary_lines(rng, ["argmax", "max"], "tied", d2)
+    # (3) n = 0, 1, 2, 3 for every statistic, with special values
+    for _ in range(12 * reps):
+        for n in (1, 1, 2, 3):
+            d = special_data(rng, n, 0.7, moderate=True)
+            L += unary_lines(rng, UNARY, "special", d)
+            L += cov_lines(rng, "special", d, special_data(rng, n, 0.7, moderate=True))
+            bump("strata:n<=3")
+    # (4) exact special values mixed into random data (extreme magnitudes only for the order statistics and the mean)
+    for _ in range(30 * reps):
+        n = rng.choice([1, 2, 3, 5, 8, 9, 16, 17, rng.randint(1, 120)])
+        d = special_data(rng, n, 0.3, moderate=True)
+        L += unary_lines(rng, [rng.choice(UNARY) for _ in range(4)], "special", d)
+        if rng.chance(0.4):
+            L += cov_lines(rng, "special", d, special_data(rng, n, 0.3, moderate=True))
+        e = special_data(rng, n, 0.4)
+        L += unary_lines(rng, ["min", "max", "argmin", "argmax"], "special", e)
+        L.append("hbc %d %s %s" % (rng.randint(0, 1), "edges", vec(sorted(special_data(rng, rng.randint(0, 12), 0.4, moderate=True)))))
+        bump("strata:special")
+    # (5) tied extrema, including +0 / -0 ties, at the first / last / several positions
+    for _ in range(25 * reps):
+        n = rng.choice([2, 3, 4, 8, 9, 17, rng.randint(2, 60)])
+        lo, hi = sorted([rng.choice([0.0, -0.0, 1.0, -1.0, rng.normal()]), rng.choice([0.0, -0.0, 2.0, -2.0, rng.normal()])])
+        d = [rng.uniform(lo, hi) if lo < hi and rng.chance(0.4) else rng.choice([lo, hi]) for _ in range(n)]
+        zmix = lambda v: rng.choice([0.0, -0.0]) if v == 0.0 else v
+        d = [zmix(v) for v in d]
+        for pos in rng.choice([[0], [n - 1], [0, n - 1], [n // 2, n - 1], []]):
+            d[pos] = zmix(rng.choice([lo, hi]))
+        L += unary_lines(rng, ["argmin", "argmax", "min", "max"], "tied", d)
+        r = rng.choice([1, 2, 3, n])
+        c = max(1, n // r)
+        dd = (d * 3)[:r * c]
+        for op in ("margmin", "margmax"):
+            L.append("%s 0 %s %d %d %s" % (op, "matrix", r, c, " ".join(f2h(v) for v in dd)))
+        bump("strata:ties")
+    # (6) Matrix argmin / argmax on non-square shapes, both orientations, 1 x n and n x 1 (round-3 seed C08g)
+    shapes = [(1, 1), (1, 2), (2, 1), (1, 7), (7, 1), (2, 3), (3, 2), (2, 5), (5, 2), (3, 7), (7, 3), (1, 33), (33, 1), (4, 9), (9, 4),
+              (16, 17), (17, 16), (8, 3), (3, 8), (1, 64), (64, 1), (5, 13), (13, 5)]
+    for _ in range(reps):
+        for (r, c) in shapes:
+            for trial in range(2):
+                d = gen_data(rng, rng.choice(["gauss", "int", "tied"]), r * c)
+                # put the unique extremum in the last row / last column / a corner from time to time
+                pos = rng.choice([r * c - 1, (r - 1) * c, c - 1, rng.randint(0, r * c - 1)])
+                if trial == 0:
+                    d[pos] = min(d) - 1.0
+                    d[r * c - 1 - pos] = max(d) + 1.0
+                for op in ("margmin", "margmax"):
+                    L.append("%s 0 %s %d %d %s" % (op, "matrix", r, c, " ".join(f2h(v) for v in d)))
+            bump("strata:matrix-nonsquare")
+    # (7) heavily offset paired data for the two-pass covariances (and the others), small and boundary lengths
+    for _ in range(40 * reps):
+        n = rng.choice([2, 3, 4, 5, 7, 8, 9, 16, 17, 31, 33, rng.randint(2, 400)])
+        sx, sy = 10.0 ** rng.randint(-1, 1), 10.0 ** rng.randint(-1, 1)
+        mx = sx * 10.0 ** rng.uniform(3, 8) * rng.choice([1.0, -1.0])
+        my = sy * 10.0 ** rng.uniform(3, 8) * rng.choice([1.0, -1.0])
+        if rng.chance(0.3):
+            mx = float(round(mx))
+            my = float(round(my))
+        x = [mx + sx * rng.normal() for _ in range(n)]
+        if rng.chance(0.5):
+            y = [my + sy * rng.normal() for _ in range(n)]
+        else:
+            a = rng.choice([1.0, -1.0, 0.5, 2.0])
+            y = [my + a * (v - mx) + 0.1 * sy * rng.normal() for v in x]
+        L += cov_lines(rng, "offset", x, y)
+        if rng.chance(0.3):
+            L += unary_lines(rng, ["var", "svar", "std"], "offset", x)
+        bump("strata:offset-pairs")
+    # (8) extreme scale: exact powers of two far from 1 must scale the results exactly
+    for _ in range(6 * reps):
+        g = 10 ** 9 + len(L)
+        n = max(2, rng.choice([2, 3, 8, 9, 17, rng.randint(2, 100)]))
+        bx = gen_data(rng, rng.choice(["gauss", "int", "tied"]), n)
+        by = gen_data(rng, rng.choice(["gauss", "int"]), n)
+        for k, (ex, ey) in enumerate([(0, 0), (500, 0), (-500, 0)]):
+            tag = "scale:%d:%d:%d:%d" % (g, k, ex, ey)
+            L += unary_lines(rng, ["mean", "wmean", "min", "max", "argmin", "argmax"], tag, [v * 2.0 ** ex for v in bx])
+        g += 1
+        for k, (ex, ey) in enumerate([(0, 0), (200, 150), (-200, -150), (200, -200)]):
+            tag = "scale:%d:%d:%d:%d" % (g, k, ex, ey)
+            x = [v * 2.0 ** ex for v in bx]
+            y = [v * 2.0 ** ey for v in by]
+            L += unary_lines(rng, ["var", "svar", "std", "sstd", "mean"], tag, x)
+            L += cov_lines(rng, tag, x, y)
+        bump("strata:extreme-scale")
+    return L
 
 
 def _zero_blind(tok):
